@@ -283,6 +283,9 @@ pub const ENUM_DIAGNOSTICS: &[&str] = &[
     "#[logos(type T)]", "#[logos(type Undeclared = u8)]", "#[logos(utf8 = 5)]", "#[logos(utf8 = true)]\n#[logos(utf8 = false)]", "#[logos(utf8)]",
     "#[logos(lifetime = 'x)]\n#[logos(lifetime = 'y)]", "#[logos(lifetime = 5)]", "#[logos(lifetime)]", "#[logos(skip)]", "#[logos(skip(5))]", "#[logos(skip \"a*\")]",
     "#[logos(skip(\"z\", priority = 1, priority = 2))]", "#[logos(skip(\"(\"))]", "#[logos(export_dir = 5)]", "#[logos(export_dir)]", "#[logos(skip \"(?&nowhere)\")]",
+    // values that are not a path / a type where one is expected (the derive splices them into the implementation)
+    "#[logos(crate = \"x\")]", "#[logos(error = 5)]", "#[logos(extras = 5)]", "#[logos(extras = a b)]", "#[logos(error = fn)]", "#[logos(crate = a b)]",
+    "#[logos(error = \"E\")]", "#[logos(extras = -1)]",
 ];
 
 /// Variant-level attributes that make the derive emit a diagnostic; each gets a unit variant of its own.
